@@ -108,6 +108,10 @@ type subEnv struct {
 	walk    chan struct{} // walk.begin hook -> writer
 	arrive  chan struct{} // writer -> walk.begin hook
 	pending int32         // held-back ops of the running phase not yet executed
+	// in every other phase the held-back op is aimed at the registration window of a starting stream (between the
+	// target check and the registration) instead of its initial walk
+	atReg  int32
+	opDone chan struct{} // writer -> stream.register hook: the held-back op has been carried out
 }
 
 // emit serialises emission: file order is a real-time order.
@@ -524,10 +528,18 @@ func (e *subEnv) writerOp(t string, o cacheOp) {
 		}
 		select {
 		case <-e.walk:
-			time.Sleep(time.Duration(o.Now%8) * 40 * time.Microsecond)
+			if atomic.LoadInt32(&e.atReg) == 0 {
+				time.Sleep(time.Duration(o.Now%8) * 40 * time.Microsecond)
+			}
 		case <-time.After(20 * time.Millisecond):
 		}
 		atomic.AddInt32(&e.pending, -1)
+		defer func() {
+			select {
+			case e.opDone <- struct{}{}:
+			default:
+			}
+		}()
 	}
 	e.emit(ev)
 	res := "ok"
@@ -828,6 +840,23 @@ func subHook(point string, arg interface{}) {
 			default:
 			}
 		}
+	case "stream.register":
+		// the stream has passed the target check and is about to register: a held-back op aimed at this window is
+		// let through and given a moment to finish before the registration goes on
+		if r, ok := arg.(*subRun); ok && atomic.LoadInt32(&r.env.atReg) == 1 && atomic.LoadInt32(&r.env.pending) > 0 {
+			select {
+			case <-r.env.arrive:
+			case <-time.After(20 * time.Millisecond):
+			}
+			select {
+			case r.env.walk <- struct{}{}:
+			default:
+			}
+			select {
+			case <-r.env.opDone:
+			case <-time.After(5 * time.Millisecond):
+			}
+		}
 	case "stream.queue":
 		// the client queue of a stream, before it is registered: offers can be told apart from the first one on
 		a := arg.([2]interface{})
@@ -913,7 +942,7 @@ func installSubHooks(delays bool) {
 
 func runSubScenario(w *trace.Writer, sc subScenario) bool {
 	e := &subEnv{w: w, sc: sc, runs: map[string]*subRun{}, fed: map[string][]trace.E{}, pools: map[string]pathPool{},
-		walk: make(chan struct{}, 1), arrive: make(chan struct{}, 1)}
+		walk: make(chan struct{}, 1), arrive: make(chan struct{}, 1), opDone: make(chan struct{}, 1)}
 	opts := []cache.Option{}
 	if !sc.Ed {
 		opts = append(opts, cache.DisableEventDrivenEmulation())
@@ -994,6 +1023,11 @@ func runSubScenario(w *trace.Writer, sc subScenario) bool {
 		case <-e.arrive:
 		default:
 		}
+		select {
+		case <-e.opDone:
+		default:
+		}
+		atomic.StoreInt32(&e.atReg, int32((phi+sc.Sc)%2))
 		atomic.StoreInt32(&e.pending, held)
 		sort.Strings(tnames)
 		for _, name := range ph.Start {
